@@ -10,8 +10,12 @@ Fault enumeration in a child process, two catalogues:
       index, k ∈ {0, -1, n+1, 2^31}.
 Observed: exit status of the worker (native crash), per-case timeout (hang), state_dict and plain
 attributes before/after a raising update(), the continuation against a twin that never saw the
-fault; for index faults additionally: a call that RETURNS on an out-of-range label (there is no
-textbook value for it) and a returned value that differs from the threshold-counting definition.
+fault.  A faulty call that RETURNS NORMALLY satisfies the property (C14: "either return normally or raise");
+for index faults such calls are counted and their distinct (entry, fault) pairs are listed in the
+evidence notes (`accepted_out_of_range_inputs`) — the value they return is a matter of C04/C06/C18.
+Violations are only: a signal / crash / hang of the child, an exception followed by a changed
+state_dict()/cursor or by a continuation that differs from the twin, and (Lean, `unchecked_kernels_are_guarded`)
+a kernel of the `unchecked` kind reached by an unguarded user index.
 Lean: validate-then-mutate ordering decided over the regenerated update() table; "a failed update
 leaves the state untouched" for the class models; index-kernel semantics, `idx_in_range_*` for all
 inputs on the typed models, and decided obligations over the regenerated inventory."""
@@ -37,8 +41,10 @@ MODELLED = ["native memory safety inside torch kernels cannot be shown by this t
             "a NaN score has no textbook value: the memory-optimised binned forms (searchsorted) count it as above every threshold, the vectorized forms (>=) as below; "
             "recorded in the input distribution, not a violation"]
 ASSUMPTIONS = ["a shape/type fault that the real code accepts and answers normally is not a violation of this property (it may be one of C18)",
-               "an out-of-range LABEL has no textbook result: a call that returns on it is reported (signature …|returned-instead-of-raising)",
-               "thresholds of the binned metrics lie in [0,1]: +inf must count like the score 2.0, -inf like -1.0"]
+               "an index fault (out-of-range label, NaN/±inf score, out-of-range k) that the real code accepts and answers normally is not a violation either: "
+               "all unguarded index sites are of the wrapping / dropping kernel kinds, which cannot leave the buffer (TE.C14.kernel_keeps_extent, "
+               "kernel_defined_unless_unchecked); the accepted (entry, fault) pairs are listed in the notes (accepted_out_of_range_inputs)",
+               "the value comparisons recorded for k > n, ±inf and NaN (equals-k=n, as-above-all-thresholds, …) are descriptive counts of the input distribution, not oracles of this property"]
 TRUSTED_EXTRA = ["harness/translators/atomicity.py (AST statement order of update()) producing lean/TE/Gen/Atomicity.lean",
                  "harness/translators/indexsites.py (AST index-site inventory + empirical kernel probe) producing lean/TE/Gen/IndexSites.lean"]
 CASE_TIMEOUT = 20.0
@@ -77,16 +83,8 @@ def judge(case, d) -> list[tuple[str, str]]:
                     f"{entry} raised {d['raised']} on {fam} {fname} but state_dict()/attributes changed"))
     elif d.get("continuation_differs"):
         out.append((f"C14|{entry}|{fam}:{fname}|continuation-differs-after-failed-call", f"{entry}: after a failed call ({fam} {fname}): {d['continuation_differs']}"))
-    elif d.get("returned") and fam == "label":
-        side = "label<0" if d.get("value", 0) < 0 else "label>=C"
-        after = f"; compute() afterwards {d['compute']}" if d.get("compute") else ""
-        out.append((f"C14|{entry}|{side}|returned-instead-of-raising",
-                    f"{entry} (config {d.get('cfg')}) accepted the label {d.get('value')} (valid labels 0..{d.get('bound', 0) - 1}) and returned normally{after}; "
-                    f"the label argument reaches: {', '.join(d.get('kinds', []))}"))
-    elif d.get("returned") and str(d.get("oracle", "")).startswith("differs"):
-        out.append((f"C14|{entry}|score:{fname}|result-differs-from-threshold-counting", f"{entry} with a {fname} score: {d['oracle']}"))
-    elif d.get("returned") and d.get("oracle") in ("differs-from-k=n", "nonzero-for-k<=0"):
-        out.append((f"C14|{entry}|k:{fname}|{d['oracle']}", f"{entry} with k={d.get('value')} returned a value that is {d['oracle']}"))
+    # a call that RETURNS NORMALLY on an out-of-range label / score / k satisfies C14 ("either return normally or
+    # raise"): the value it returns is a matter of C04/C06/C18.  It is counted (`account`), never a violation.
     return out
 
 
@@ -113,7 +111,31 @@ def account(rep: Report, case, d):
     else:
         outcome = "returned" + (":" + str(d["oracle"]) if d.get("oracle") else "") + ("|compute-" + d["compute"] if d.get("compute") else "")
     rep.count(f"idx:{fam}:{fname}:{outcome}")
-    rep.count(f"idx-kinds:{'+'.join(d.get('kinds', []) or ['?'])}:{fam}:{'raised' if d.get('raised') else 'returned'}")
+    kinds = "+".join(d.get("kinds", []) or ["?"])
+    if d.get("raised"):
+        rep.count(f"index-fault:raised:{kinds}")
+    else:
+        rep.count(f"index-fault:returned-normally:{kinds}")
+        acc = rep.__dict__.setdefault("_accepted", {})
+        key = (d.get("entry", case[1]), f"{fam}:{fname}")
+        info = acc.setdefault(key, {"n": 0, "compute": set(), "cfgs": []})
+        info["n"] += 1
+        if d.get("compute"):
+            info["compute"].add(d["compute"])
+        c = json.dumps(d.get("cfg", {}), sort_keys=True, default=str)
+        if c not in info["cfgs"] and len(info["cfgs"]) < 4:
+            info["cfgs"].append(c)
+
+
+def accepted_note(rep: Report):
+    """distinct (entry, fault) pairs of index faults that the real code accepted and answered normally."""
+    acc = rep.__dict__.get("_accepted", {})
+    rows = []
+    for (entry, fault), info in sorted(acc.items()):
+        after = ("; compute() afterwards: " + ",".join(sorted(info["compute"]))) if info["compute"] else ""
+        rows.append(f"{entry} <- {fault} (x{info['n']}, configs {' '.join(info['cfgs'])}{after})")
+    rep.notes.append(f"accepted_out_of_range_inputs ({len(rows)} distinct (entry, fault) pairs; returning normally satisfies C14, the returned value is a matter "
+                     f"of C04/C06/C18; `compute() afterwards: raises` = update() cached the input and compute() raises until reset()): " + " || ".join(rows))
 
 
 def drive(rep: Report, seed: int, tier: str, deadline: float):
@@ -253,6 +275,7 @@ def run(rep: Report):
     unguarded_demo(rep)
     atom_tr.crosscheck(rep)
     drive(rep, rep.seed, rep.tier, time.time() + budget(rep.tier, 100, 900))
+    accepted_note(rep)
 
 
 def search(rep: Report):
